@@ -180,6 +180,7 @@ class Env:
         self.streams = {}          # key -> StringIO
         self.finalized = []        # (key, stats or None)
         self.dump_dirs = []
+        self.zips = []
 
     def sink_header(self, name, kw):
         self.printed.append(name)
@@ -770,6 +771,23 @@ class DumpToPath:
         d = 'dump_%s_%s' % (env.tag, spec['key'])
         env.dump_dirs.append(d)
         return lab.df().dump_to_path(d, format=spec['format'])
+
+
+@op('dump_to_zip', streaming=True, observer=True)
+class DumpToZip:
+    @staticmethod
+    def gen(rng, shape):
+        return {'op': 'dump_to_zip', 'format': rng.choice(['csv', 'json']), 'key': 'z%d' % rng.randint(0, 10 ** 6)}
+
+    @staticmethod
+    def shape(spec, shape):
+        return shape
+
+    @staticmethod
+    def build(spec, env):
+        z = 'zip_%s_%s.zip' % (env.tag, spec['key'])
+        env.zips.append(z)
+        return lab.df().dump_to_zip(z, format=spec['format'])
 
 
 @op('stream', streaming=True, observer=True)
